@@ -965,6 +965,29 @@ pub fn mode(args: &Args) {
 }
 
 
+fn type_name_shape_definitions() -> Vec<(String, RecordDefinition<NativeDatumDetails>)> {
+    let mut out = Vec::new();
+    {
+        let mut b: Builder = NativeRecordDefinitionBuilder::new(HostTypeResolver);
+        b.add_datum::<Vec<(String, u32)>, _>("pairs").unwrap();
+        b.add_datum::<Option<[String; 2]>, _>("two").unwrap();
+        b.add_datum::<Box<[Vec<u8>]>, _>("rows").unwrap();
+        b.close_record_variant();
+        b.add_datum::<Vec<Box<(String, Vec<Option<String>>)>>, _>("deep").unwrap();
+        b.add_datum::<Result<(Box<str>, [Option<Box<u64>>; 3]), Vec<(u8, String)>>, _>("either").unwrap();
+        b.add_datum::<(Vec<String>, (Option<String>, [Box<str>; 2])), _>("tuple").unwrap();
+        b.close_record_variant_with(nvariant::basic);
+        b.add_datum::<Option<(String, Vec<(vtypes::Tracked, String)>)>, _>("user").unwrap();
+        b.add_datum::<[(Option<String>, Vec<(String, String)>); 2], _>("arr").unwrap();
+        b.close_record_variant();
+        out.push((
+            "standard paths nested in tuples, arrays and slices used as generic arguments (clone + serde capable)".to_owned(),
+            b.build(),
+        ));
+    }
+    out
+}
+
 /// Every definition with each of the four fragment selections its field types support: the
 /// generated text only (no driver), for a type-check by the real compiler.
 fn mode_all_fragsets(specs: &[GSpec], seed: u64, dir: &std::path::Path) {
@@ -998,6 +1021,25 @@ fn mode_all_fragsets(specs: &[GSpec], seed: u64, dir: &std::path::Path) {
                 }
                 Ok(Err(e)) => manifest.push(serde_json::json!({"module": name, "label": spec.label, "history": spec.text(), "fragments": fragments, "status": format!("builder refused: {}", e)})),
                 Err(_) => manifest.push(serde_json::json!({"module": name, "label": spec.label, "history": spec.text(), "fragments": fragments, "status": "builder or generator panicked"})),
+            }
+        }
+    }
+    // compile-only definitions whose field types nest the standard paths inside tuples, arrays,
+    // slices and function pointers used as generic arguments (the names the resolver records for
+    // them are what the generated text is made of)
+    for (label, def) in type_name_shape_definitions() {
+        for fragset in [0usize, 1, 3] {
+            let name = format!("m{}", k);
+            k += 1;
+            let text = std::panic::catch_unwind(|| generate(&def, &config_for_alt(fragset, fragset == 1)));
+            match text {
+                Ok(text) => {
+                    write_if_changed(&dir.join("src").join(format!("{}.rs", name)), &text);
+                    let _ = writeln!(main, "#[allow(dead_code, unused_imports, unused_variables, clippy::all)]\nmod {name} {{ include!(\"{name}.rs\"); }}");
+                    manifest.push(serde_json::json!({"module": name, "label": label, "history": label, "fragments": FRAGSETS[fragset], "status": "emitted"}));
+                    emitted += 1;
+                }
+                Err(_) => manifest.push(serde_json::json!({"module": name, "label": label, "history": label, "fragments": FRAGSETS[fragset], "status": "generator panicked"})),
             }
         }
     }
